@@ -56,8 +56,8 @@ MANIFEST_TEXT = (
     "register size and measured mode; inv2 is the inverse; rng parameters are the measured marginal (+sigma), for "
     "homodyne at an angle the mean/variance of x_phi (+eps^2); Gaussian and bosonic post-selected homodyne agree "
     "(p-draw = 0) and the p-draw enters by an explicit term; value-scaling round trips. "
-    "Partial: post-selected heterodyne Gaussian-vs-bosonic is REFUTED for the code as is (witness theorem); "
-    "proved instead: agreement at alpha=0, agreement after doubling alpha, explicit gap formula. "
+    "Gaussian and bosonic post-selected heterodyne agree for every size, mode and value (full, since fix a15d68b; the "
+    "pre-fix entry point is kept as *_old with its refutation witness and gap formula). "
     "Not proved (checked on the implementation only): Born rule as physics, Fock homodyne pdf, hafnian/torontonian "
     "samplers, bosonic rejection sampling and re-weighting, threshold conditional state, project_reset on tensors.")
 
@@ -567,7 +567,7 @@ def corr_peaks(ctx):
     for _ in range(n_cases):
         case = gen_peaks_case(rng)
         if case["n"] == 1:
-            # all modes measured: known crash site of reassemble_multi, exercised in the search instead
+            # all modes measured: exercised at engine level in the search; here the model needs an unmeasured block
             case["n"] = 2
             for i in range(len(case["means"])):
                 case["means"][i] = case["means"][i] + [0.1, -0.2]
@@ -1693,11 +1693,95 @@ def check_all_measured(spec):
     return check_dyne(spec)[0]
 
 
+# inputs on which defects that are now repaired in /repo (known_findings.d/C06-fixed.txt) used to show; run first on
+# every run, so that a regression is reported as a VIOLATION with its original signature
+REGRESSION_INPUTS = [{'check': 'dyne-family',
+  'spec': {'backend': 'gaussian',
+           'n': 2,
+           'deleted': [],
+           'live': [0, 1],
+           'prefix': [['S2gate', [0.5, 0.3], [0, 1], False], ['Dgate', [0.3, 0.2], [0], False]],
+           'hbar': 2.0,
+           'meas': {'kind': 'het', 'modes': [1]},
+           'draw': [0.4, 0.2]}},
+ {'check': 'all-measured',
+  'spec': {'backend': 'bosonic',
+           'n': 1,
+           'deleted': [],
+           'live': [0],
+           'prefix': [['Sgate', [0.4, 0.1], [0], False], ['Dgate', [0.3, 0.5], [0], False]],
+           'hbar': 2.0,
+           'meas': {'kind': 'hom', 'modes': [0], 'phi': 0.3, 'select': 0.25},
+           'draw': [0.1, 0.2]}},
+ {'check': 'all-measured',
+  'spec': {'backend': 'bosonic',
+           'n': 1,
+           'deleted': [],
+           'live': [0],
+           'prefix': [['Sgate', [0.4, 0.1], [0], False], ['Dgate', [0.3, 0.5], [0], False]],
+           'hbar': 2.0,
+           'meas': {'kind': 'het', 'modes': [0], 'select': [0.2, 0.1]},
+           'draw': [0.1, 0.2]}},
+ {'check': 'cat',
+  'spec': {'n': 2,
+           'a': 0.8,
+           'p': 0,
+           'rep': 'real',
+           'r': 0.2,
+           'theta': 0.6,
+           'bsphi': 0.1,
+           'k': 0,
+           'phi': 0.3,
+           'select': 0.2,
+           'hbar': 2.0,
+           'entangle': False,
+           'disp': [0.0, 0.0]}},
+ {'check': 'reject',
+  'spec': {'n': 2,
+           'a': 0.8,
+           'p': 0,
+           'rep': 'real',
+           'r': 0.2,
+           'theta': 0.6,
+           'bsphi': 0.1,
+           'k': 0,
+           'phi': 0.3,
+           'select': 0.2,
+           'hbar': 2.0,
+           'entangle': False,
+           'disp': [0.0, 0.0],
+           'kind': 'hom',
+           'pts': [[0.2, 0.1], [-0.3, 0.2]],
+           'peak': 0}},
+ {'check': 'reject',
+  'spec': {'n': 2,
+           'a': 0.8,
+           'p': 0,
+           'rep': 'real',
+           'r': 0.2,
+           'theta': 0.6,
+           'bsphi': 0.1,
+           'k': 0,
+           'phi': 0.3,
+           'select': 0.2,
+           'hbar': 2.0,
+           'entangle': False,
+           'disp': [0.0, 0.0],
+           'kind': 'het',
+           'pts': [[0.2, 0.1], [-0.3, 0.2]],
+           'peak': 0}}]
+
+
 def run_corpus(ctx):
     """replay the recorded inputs first, on every run"""
     import glob
     import json
     import os
+    for item in REGRESSION_INPUTS:
+        fails = CHECKS[item["check"]](copy.deepcopy(item["spec"]))
+        ctx.case(dict(kind="regression", check=item["check"]), nontrivial=False, bucket="regression")
+        for sig, what in fails:
+            ctx.counterexample(sig, what, dict(check=item["check"], spec=item["spec"]))
     for f in sorted(glob.glob(os.path.join(coq.VERIF, "corpus", "C06-*.json"))):
         body = json.load(open(f))
         d = body["data"]
